@@ -7,5 +7,6 @@ func main() {
 	xlate.Main("C10",
 		xlate.Spec{Pkg: "seq", Name: "TimeToMID"},
 		xlate.Spec{Pkg: "proxy/bulk", Name: "documentDelayed", Ignore: []string{"delays.Inc", "futureDelays.Inc"}},
+		xlate.Spec{Pkg: "proxyapi", Recv: "IngestorConfig", Name: "setDefaults"},
 	)
 }
